@@ -29,6 +29,7 @@ type Contract struct {
 	Inline   bool // requires are checked at call sites, then the body is inlined
 	File     string
 	fn       *ssa.Function
+	macros   []*macro
 	Locals   map[string]string // loop var -> "name type, ..." declarations (unused when CheckExpr resolves them)
 }
 
@@ -43,7 +44,88 @@ type Clause struct {
 	err    error
 }
 
-var kwRe = regexp.MustCompile(`^(func|requires|ensures|loop|watch|lemma|trusted|noinline|inline|end)\b`)
+var kwRe = regexp.MustCompile(`^(func|requires|ensures|loop|watch|lemma|trusted|noinline|inline|define|end)\b`)
+
+type macro struct {
+	name   string
+	params []string
+	body   string
+}
+
+var macroHead = regexp.MustCompile(`^([A-Za-z_][A-Za-z0-9_]*)\(([^)]*)\)\s+(.*)$`)
+
+// expandMacros replaces NAME(args) by the macro body with parameters substituted (textually, to a fixed point).
+func expandMacros(s string, macros []*macro) string {
+	for iter := 0; iter < 8; iter++ {
+		changed := false
+		for _, m := range macros {
+			for {
+				idx := findCall(s, m.name)
+				if idx < 0 {
+					break
+				}
+				open := idx + len(m.name)
+				cl := matchClose(s, open)
+				if cl < 0 {
+					break
+				}
+				args := splitArgs(s[open+1 : cl])
+				if len(args) != len(m.params) {
+					break
+				}
+				body := m.body
+				ren := map[string]string{}
+				for i, p := range m.params {
+					ren[p] = "(" + strings.TrimSpace(args[i]) + ")"
+				}
+				body = renameIdents(body, ren)
+				s = s[:idx] + "(" + body + ")" + s[cl+1:]
+				changed = true
+			}
+		}
+		if !changed {
+			break
+		}
+	}
+	return s
+}
+
+func findCall(s, name string) int {
+	from := 0
+	for {
+		i := strings.Index(s[from:], name+"(")
+		if i < 0 {
+			return -1
+		}
+		i += from
+		if i == 0 || !isIdentChar(s[i-1]) && s[i-1] != '.' {
+			return i
+		}
+		from = i + 1
+	}
+}
+
+func splitArgs(inner string) []string {
+	var parts []string
+	depth, start := 0, 0
+	for k := 0; k < len(inner); k++ {
+		switch inner[k] {
+		case '(', '{', '[':
+			depth++
+		case ')', '}', ']':
+			depth--
+		case ',':
+			if depth == 0 {
+				parts = append(parts, inner[start:k])
+				start = k + 1
+			}
+		}
+	}
+	if strings.TrimSpace(inner[start:]) != "" || len(parts) > 0 {
+		parts = append(parts, inner[start:])
+	}
+	return parts
+}
 
 // parseContractFile reads //@ lines.
 func parseContractFile(path, relpkg string) ([]*Contract, error) {
@@ -55,6 +137,13 @@ func parseContractFile(path, relpkg string) ([]*Contract, error) {
 	var out []*Contract
 	var cur *Contract
 	var last *Clause
+	var macros []*macro
+	var lastMacro *macro
+	defer func() {
+		for _, c := range out {
+			c.macros = macros
+		}
+	}()
 	sc := bufio.NewScanner(fh)
 	sc.Buffer(make([]byte, 1<<20), 1<<20)
 	ln := 0
@@ -75,14 +164,33 @@ func parseContractFile(path, relpkg string) ([]*Contract, error) {
 			m = ""
 		}
 		if m == "" {
+			if lastMacro != nil {
+				lastMacro.body += " " + tb
+				continue
+			}
 			if last == nil {
 				return nil, fmt.Errorf("%s:%d: continuation without clause", path, ln)
 			}
 			last.Text += " " + tb
 			continue
 		}
+		lastMacro = nil
 		rest := strings.TrimSpace(tb[len(m):])
 		switch m {
+		case "define":
+			mh := macroHead.FindStringSubmatch(rest)
+			if mh == nil {
+				return nil, fmt.Errorf("%s:%d: define NAME(params) body", path, ln)
+			}
+			mc := &macro{name: mh[1], body: mh[3]}
+			for _, p := range strings.Split(mh[2], ",") {
+				if p = strings.TrimSpace(p); p != "" {
+					mc.params = append(mc.params, p)
+				}
+			}
+			macros = append(macros, mc)
+			lastMacro = mc
+			last = nil
 		case "func":
 			cur = &Contract{Key: relpkg + ":" + rest, Loops: map[string][]*Clause{}, File: path}
 			out = append(out, cur)
@@ -393,6 +501,7 @@ func (P *Program) ghostScope(parent *types.Scope, pkg *types.Package, pos token.
 	mk("allocated", boolT, anyT)
 	mk("fresh", boolT, anyT)
 	mk("typeIs", boolT, anyT, strT)
+	mk("nonNilPayload", boolT, anyT)
 	// old is handled syntactically (rewritten to a parenthesised expression before checking)
 	if fn != nil {
 		res := fn.Signature.Results()
@@ -423,7 +532,11 @@ func (P *Program) prepare(cl *Clause, fn *ssa.Function, pos token.Pos) error {
 		return cl.err
 	}
 	cl.done = true
-	src := rewriteImplies(cl.Text)
+	text := cl.Text
+	if ct := P.contractFor(fn); ct != nil {
+		text = expandMacros(text, ct.macros)
+	}
+	src := rewriteImplies(text)
 	e, err := parser.ParseExpr(src)
 	if err != nil {
 		cl.err = fmt.Errorf("clause %q: parse: %v (after rewriting: %s)", cl.Name, err, src)
@@ -474,6 +587,8 @@ func rewriteOld(e ast.Expr, set map[ast.Expr]bool) ast.Expr {
 		case *ast.UnaryExpr:
 			x.X = rw(x.X)
 		case *ast.StarExpr:
+			x.X = rw(x.X)
+		case *ast.TypeAssertExpr:
 			x.X = rw(x.X)
 		case *ast.SelectorExpr:
 			x.X = rw(x.X)
@@ -631,6 +746,14 @@ func (e *specEnv) eval(x ast.Expr) Term {
 		return e.sliceExpr(n)
 	case *ast.CallExpr:
 		return e.call(n)
+	case *ast.TypeAssertExpr:
+		v := e.eval(n.X)
+		T := e.typeOf(n)
+		if isPtrLike(T) {
+			return ifVal(v)
+		}
+		hn, hs := tt.boxHeap(T)
+		return mkSelect(e.st().get(hn, hs), ifVal(v), tt.sortOf(T))
 	case *ast.CompositeLit:
 		unsup("spec: composite literal")
 	}
@@ -1202,6 +1325,8 @@ func (e *specEnv) call(n *ast.CallExpr) Term {
 			case SBV64:
 				return mkEq(v, i64(0))
 			}
+		case "nonNilPayload":
+			return mkNot(mkEq(ifVal(e.eval(n.Args[0])), i64(0)))
 		case "typeIs":
 			v := e.eval(n.Args[0])
 			name := e.strArg(n.Args[1])
